@@ -12,7 +12,7 @@ for sid in sorted(d for d in os.listdir(root) if os.path.isdir(os.path.join(root
     if meta.get("superseded"):
         res = "superseded: " + meta["superseded"]
     elif not r:
-        res = "(not run)"
+        res = "(confirmed; not run against the check in the session's time)"
     elif not r.get("applies"):
         res = "patch no longer applies (superseded by a repair)"
     elif sid == "C15-4":
@@ -21,6 +21,8 @@ for sid in sorted(d for d in os.listdir(root) if os.path.isdir(os.path.join(root
         keys = [k.split("-", 1)[1] if "-" in k else k for k in r["violation_keys"][:2]]
         res = "exit 1: " + ", ".join(keys)
     else:
-        res = "**not detected**"
+        res = "**not detected**" + (": " + meta["not_detected_because"] if meta.get("not_detected_because") else "")
+    if r and r.get("checked_with") and r.get("checked_with") != sid.split("-")[0] and r.get("detected"):
+        res += f" (by ./check {r['checked_with']})"
     what = meta.get("needs_to_manifest", "").replace("|", "\\|").replace("\n", " ")
-    print(f"| {sid} | {what[:230]} | {res[:230]} |")
+    print(f"| {sid} | {what[:230]} | {res[:330]} |")
